@@ -154,6 +154,19 @@ def roundtrip(h, r, module, source, feats):
         h.mismatch({"check": "reprint_raises", "exc": type(e).__name__, **sig0}, r, repr(e))
         return
     if text2 != text:
+        if C.canon(module) != C.canon(m2):
+            # the parser applied one of the two granted normalisations (default-valued property dropped /
+            # inherent attribute moved from the attr-dict into the properties), so the text legitimately
+            # changes once; it must be stable from then on
+            h.count("normalised_on_reparse")
+            try:
+                text3 = print_generic(parse_fresh(text2))
+            except Exception as e:
+                h.mismatch({"check": "reparse_of_normalised_text_fails", "exc": type(e).__name__, **sig0}, r, repr(e)[:300])
+                return
+            if text3 != text2:
+                h.mismatch({"check": "reprint_differs_after_normalisation", **sig0}, r, _textdiff(text2, text3))
+            return
         h.mismatch({"check": "reprint_differs", **sig0}, r, _textdiff(text, text2))
 
 
